@@ -87,7 +87,7 @@ func main() {
 		}
 	} else {
 		// corpus first: forced schedules (Lean schedules replayed on the real code) and deterministic life cycles
-		for _, s := range []string{"restart", "window", "window-busy", "gap", "start-race", "haswork", "foreign", "zero-workers"} {
+		for _, s := range []string{"restart", "window", "window-busy", "gap", "start-race", "haswork", "foreign", "zero-workers", "reject-restart", "reject-restart-silent"} {
 			jobs = append(jobs, job{0, "sched " + s})
 		}
 		for _, cancel := range []bool{false, true} {
@@ -147,7 +147,7 @@ func main() {
 			jobs = append(jobs, job{sub, c.String()})
 		}
 	}
-	runJobs(r.OutDir, jobs, 120, func(j job, res *result) bool {
+	runJobs(r.OutDir, jobs, 120, r.Scale, func(j job, res *result) bool {
 		flush(r, j.Sub, res)
 		// enough evidence: every further failing case costs its full wait bounds
 		if len(r.Findings) >= 24 {
@@ -157,6 +157,9 @@ func main() {
 		}
 
 		return true
+	}, func(j job, why string) {
+		// not executed: an earlier case has hung (a finding), see hang.go
+		r.Count("skipped:" + why)
 	})
 	r.Finish()
 }
